@@ -46,6 +46,12 @@ CHECKS = {
    note="Contributors are real components, so a used interface is always also a direct requirement of its contributor; requirements reached only through `use` (possible at the API level when the direct argument is satisfied elsewhere) are not generated. Versions of the API package differ by added functions only (compatible by construction).",
    technique="property-based testing: algebraic laws (commutativity over all permutations, idempotence, upper bound) + model-predicted conflicts (proptest)",
    design="C09"),
+ "C10": dict(
+   category="exploration",
+   text="A socket and an ordered list of 1-4 plugs are drawn from the components of a generated library (interfaces of one API package at several versions; bare functions renamed so that plug exports collide with socket imports, with equal or different signatures; sockets importing two versions of one interface). A reference plug algorithm written from the statement predicts Ok / NoPlugHappened / GraphError and the supplier of every socket import; on Ok the socket's arguments must be exactly the predicted suppliers, idle plugs neither instantiated nor embedded, the encoded result must validate, import every unsupplied socket import and export exactly the socket's exports, each an alias of the socket instance.",
+   note="Compatibility for API interfaces comes from the generator's model (cross-checked against the validator's relation where no abstract resource is involved), for bare functions from the validator's relation. Tolerance T4 (socket with two imports on one track): only exact-name offers are prescribed. A documented merge refusal among leftover imports at encode time is not counted against plug. Two invalid-output classes shared with C01 are listed known findings.",
+   technique="property-based testing: differential against a reference plug algorithm + validity/wiring predicates over the decoded output (proptest)",
+   design="C10"),
  "C12": dict(
    category="exploration",
    text="Grammar-derived documents (own AST model, random layout) must parse to the derivation's tree; all single-token deletions/duplications/swaps and a fixed third of an 18-token substitution pool per position, raw insertions (forbidden code points, quotes, comment openers, separators, malformed versions) and ~140 hand-written near-miss forms are decided by a reference tokenizer+recogniser written from LANGUAGE.md; wac must agree on membership, on the tree when both accept, and locate its error inside the source when both reject.",
